@@ -333,7 +333,9 @@ def h_quarter(sx, cfg):
         newn = list(n)
         newn[a], newn[b] = n[b], n[a]
         if cfg.get("default_n"):
-            fr.rotate("from_matrix", _fm(Q))  # the rotator chooses the resolution: cubic cells keep their size
+            # the rotator chooses the resolution (cubic cells keep their size); the quarter turn is given the usual way, as an
+            # Euler angle, so its matrix carries SciPy's rounding (entries of order 1e-17 instead of 0)
+            fr.rotate("from_euler", seq="xyz"[axis], angles=90, degrees=True)
         else:
             fr.rotate("from_matrix", _fm(Q), n=tuple(newn))
         g = fr.field
